@@ -1,6 +1,195 @@
 import TantivyModel.Driver.Proto
+import TantivyModel.Model.Tokenizer.Filters
+import TantivyModel.Model.Tokenizer.Ngram
+import TantivyModel.Model.Snippet
+/-!
+Line protocol of the C19 model.
+
+  text     = `<codes> <alnum>`: two comma lists of equal length (scalar values, 0/1 class bits)
+  tokens   = `f:t:p:c.c.c;f:t:p:;…` (`-` = none); offsets-only answers are flattened `f,t,p,f,t,p`
+
+  tok simple|whitespace|raw|facet <codes> <alnum>          -> f,t,p,…
+  tok ngram <min> <max> <prefix01> <codes> <alnum>          -> f,t,p,…
+  tok regex <a,b,a,b,…> <codes> <alnum>                     -> f,t,p,…
+  tokt <same as tok …>                                       -> tokens with texts
+  chain <spec|spec|…> <tokens>                               -> tokens with texts
+      spec: lower=<c>o.o/c>o> | fold=<c>o.o/…> | rl=<n> | an | stop=<w/w> | stem=<t>u/…> | split=<t>p+q/…>
+  snippet <M> <codes> <alnum> <f:t:s;…  s = score or n>      -> panic | ok <frag codes> <hl a,b,…> <html hex|panic>
+  chainfacet <spec|spec|…> <codes> <alnum>                   -> tokens of FacetTokenizer + chain
+  collapse <a,b,a,b,…>                                       -> a,b,…
+  (`missing-param` = a parameter table of the request lacks a point the model needs)
+-/
 namespace TantivyModel.Driver.C19
-/-- stub: the model for C19 is not built yet -/
+open TantivyModel TantivyModel.Proto TantivyModel.Tok TantivyModel.Snip
+
+def dotList (s : String) : Option (List Nat) :=
+  if s == "" then some [] else (s.splitOn ".").mapM (fun t => t.toNat?)
+
+def showDots (l : List Nat) : String := ".".intercalate (l.map toString)
+
+def parseText (codes alnum : String) : Option Text :=
+  match natList codes, natList alnum with
+  | some cs, some bs =>
+    if cs.length = bs.length ∧ bs.all (fun b => b ≤ 1) then
+      some (List.zipWith (fun c b => (⟨c, b == 1⟩ : Cp)) cs bs)
+    else none
+  | _, _ => none
+
+def showOffsets (ts : List Token) : String :=
+  showNatList (ts.flatMap (fun t => [t.from_, t.to, t.pos]))
+
+def showTokens (ts : List Token) : String :=
+  if ts.isEmpty then "-" else
+  ";".intercalate (ts.map (fun t => s!"{t.from_}:{t.to}:{t.pos}:{showDots t.text}"))
+
+def parseTokens (s : String) : Option (List Token) :=
+  if s == "-" then some [] else
+  (s.splitOn ";").mapM (fun e =>
+    match e.splitOn ":" with
+    | [f, t, p, x] =>
+      match f.toNat?, t.toNat?, p.toNat?, dotList x with
+      | some f, some t, some p, some x => some (⟨f, t, p, x⟩ : Token)
+      | _, _, _, _ => none
+    | _ => none)
+
+def pairs : List Nat → Option (List (Nat × Nat))
+  | [] => some []
+  | [_] => none
+  | a :: b :: r => (pairs r).map ((a, b) :: ·)
+
+def tokenize (args : List String) : Option (List Token) :=
+  match args with
+  | ["simple", c, a] => (parseText c a).map simpleTokens
+  | ["whitespace", c, a] => (parseText c a).map whitespaceTokens
+  | ["raw", c, a] => (parseText c a).map rawTokens
+  | ["facet", c, a] => (parseText c a).map (facetTokens Gen.FACET_SEP_BYTE)
+  | ["ngram", mn, mx, pf, c, a] =>
+    match mn.toNat?, mx.toNat?, parseText c a with
+    | some mn, some mx, some s =>
+      if 0 < mn ∧ mn ≤ mx ∧ (pf == "0" ∨ pf == "1") then some (ngramTokens s mn mx (pf == "1")) else none
+    | _, _, _ => none
+  | ["regex", ms, c, a] =>
+    match (natList ms).bind pairs, parseText c a with
+    | some ms, some s => some (regexTokens s ms)
+    | _, _ => none
+  | _ => none
+
+/-- `k>v` entries separated by `/`; keys and values parsed by `pk`, `pv` -/
+def parseMap {α β} (pk : String → Option α) (pv : String → Option β) (s : String) :
+    Option (List (α × β)) :=
+  if s == "" then some [] else
+  (s.splitOn "/").mapM (fun e =>
+    match e.splitOn ">" with
+    | [k, v] => match pk k, pv v with
+      | some k, some v => some (k, v)
+      | _, _ => none
+    | _ => none)
+
+def lookup {α β} [BEq α] (m : List (α × β)) (k : α) : Option β :=
+  (m.find? (fun e => e.1 == k)).map (·.2)
+
+/-- not a scalar value: stands for "the request did not supply this point of a parameter function"
+(`char::to_lowercase` of a non-ASCII scalar, the stem of a text); never defaulted silently -/
+def missingParam : Nat := 0x110000
+
+def showChain (ts : List Token) : String :=
+  if ts.any (fun t => t.text.contains missingParam) then "missing-param" else showTokens ts
+
+def parseFilter (spec : String) : Option Filter :=
+  match spec.splitOn "=" with
+  | ["an"] => some .alnumOnly
+  | ["rl", n] => n.toNat?.map .removeLong
+  | ["lower", m] =>
+    (parseMap String.toNat? dotList m).map fun tab =>
+      .lower (fun c => if c < 128 then [asciiLower c] else (lookup tab c).getD [missingParam])
+  | ["fold", m] =>
+    (parseMap String.toNat? dotList m).map fun tab => .fold (fun c => lookup tab c)
+  | ["stop", ws] =>
+    (if ws == "" then some [] else (ws.splitOn "/").mapM dotList).map .stop
+  | ["stem", m] =>
+    (parseMap dotList dotList m).map fun tab => .stem (fun t => (lookup tab t).getD [missingParam])
+  | ["split", m] =>
+    (parseMap dotList (fun v => (v.splitOn "+").mapM dotList) m).map fun tab =>
+      .split (fun t => lookup tab t)
+  | _ => none
+
+def utf8Bytes (c : Nat) : List Nat :=
+  if c < 0x80 then [c]
+  else if c < 0x800 then [0xC0 + c / 64, 0x80 + c % 64]
+  else if c < 0x10000 then [0xE0 + c / 4096, 0x80 + (c / 64) % 64, 0x80 + c % 64]
+  else [0xF0 + c / 262144, 0x80 + (c / 4096) % 64, 0x80 + (c / 64) % 64, 0x80 + c % 64]
+
+def entity (c : Nat) : List Nat :=
+  (if c == 0x22 then "&quot;" else if c == 0x26 then "&amp;" else if c == 0x27 then "&#x27;"
+   else if c == 0x3C then "&lt;" else "&gt;").toList.map Char.toNat
+
+def renderHtml (h : List Html) : List UInt8 :=
+  (h.flatMap fun
+    | .raw c => utf8Bytes c
+    | .ent c => entity c
+    | .open_ => Gen.SNIPPET_PREFIX
+    | .close => Gen.SNIPPET_POSTFIX).map UInt8.ofNat
+
+def parseSToks (s : String) : Option (List STok) :=
+  if s == "-" then some [] else
+  (s.splitOn ";").mapM (fun e =>
+    match e.splitOn ":" with
+    | [f, t, sc] =>
+      match f.toNat?, t.toNat? with
+      | some f, some t =>
+        if sc == "n" then some (⟨f, t, none⟩ : STok) else sc.toNat?.map (fun v => ⟨f, t, some v⟩)
+      | _, _ => none
+    | _ => none)
+
+/-- offsets and positions only (the token texts, slices of the whole text, are not computed):
+the same `scanAux` / `regexAux` / `ngramOffsets` the token lists are mapped from -/
+def offsetsOnly (args : List String) : Option (List (Nat × Nat × Nat)) :=
+  match args with
+  | ["simple", c, a] => (parseText c a).map (scanAux (fun c => c.alnum) none 0 0)
+  | ["whitespace", c, a] => (parseText c a).map (scanAux (fun c => !isAsciiWs c.code) none 0 0)
+  | ["ngram", mn, mx, pf, c, a] =>
+    match mn.toNat?, mx.toNat?, parseText c a with
+    | some mn, some mx, some s =>
+      if 0 < mn ∧ mn ≤ mx ∧ (pf == "0" ∨ pf == "1") then
+        some ((ngramOffsets s mn mx (pf == "1")).map (fun p => (p.1, p.2, 0)))
+      else none
+    | _, _, _ => none
+  | ["regex", ms, _, _] => ((natList ms).bind pairs).map (regexAux 0 0)
+  | _ => (tokenize args).map (fun ts => ts.map (fun t => (t.from_, t.to, t.pos)))
+
 def handle : List String → String
+  | "tok" :: args =>
+    match offsetsOnly args with
+    | some ts => showNatList (ts.flatMap (fun t => [t.1, t.2.1, t.2.2]))
+    | none => "bad-op"
+  | "tokt" :: args =>
+    match tokenize args with
+    | some ts => showTokens ts
+    | none => "bad-op"
+  | ["chain", specs, toks] =>
+    match (specs.splitOn "|").mapM parseFilter, parseTokens toks with
+    | some fs, some ts => showChain (applyChain fs ts)
+    | _, _ => "bad-op"
+  | ["chainfacet", specs, c, a] =>
+    match (specs.splitOn "|").mapM parseFilter, parseText c a with
+    | some fs, some s => showChain (facetChain Gen.FACET_SEP_BYTE fs s)
+    | _, _ => "bad-op"
+  | ["snippet", m, c, a, toks] =>
+    match m.toNat?, parseText c a, parseSToks toks with
+    | some m, some s, some ts =>
+      match snippet s m ts with
+      | none => "panic"
+      | some sn =>
+        let html := match toHtml sn with
+          | none => "panic"
+          | some h => hexOfBytes (renderHtml h)
+        let frag := if sn.fragment.isEmpty then "-" else showDots (sn.fragment.map Cp.code)
+        s!"ok {frag} {showNatList (sn.hl.flatMap (fun h => [h.1, h.2]))} {html}"
+    | _, _, _ => "bad-op"
+  | ["collapse", l] =>
+    match (natList l).bind pairs with
+    | some ps => showNatList ((collapse ps).flatMap (fun h => [h.1, h.2]))
+    | none => "bad-op"
   | _ => "bad-op"
+
 end TantivyModel.Driver.C19
